@@ -48,6 +48,11 @@ for _n in ["flatten", "roll", "repeat", "getitem_adv", "softmax", "logsoftmax", 
 for _n in gen.NARY + ["multi_matmul"]:
     STEP_OF[_n] = gen.step_nary
 ALL_NAMES = sorted(STEP_OF)
+# ops whose option space is large are drawn more often (axis x keepdims x ddof, ord, subscripts, index kinds, ...)
+_WEIGHT = {"var": 5, "std": 5, "sum": 3, "mean": 3, "prod": 3, "max": 4, "min": 4, "norm": 4, "einsum": 4, "getitem": 3,
+           "getitem_adv": 4, "repeat": 3, "matmul": 3, "softmax": 2, "logsoftmax": 2, "cumsum": 2, "cumprod": 2, "roll": 2,
+           "transpose": 2, "reshape": 2, "squeeze": 2, "where": 2, "clip": 2, "concatenate": 2, "stack": 2, "power": 2}
+WEIGHTED_NAMES = [n for n in ALL_NAMES for _ in range(_WEIGHT.get(n, 1))]
 
 LAYOUTS = [None, None, None, "F", "neg", "sliced", "bcast", "relaxed", "offset"]
 
@@ -68,7 +73,7 @@ def _seed(draw, shape):
 
 @st.composite
 def cases(draw, names=None):
-    name = draw(st.sampled_from(names or ALL_NAMES))
+    name = draw(st.sampled_from(names or WEIGHTED_NAMES))
     b = Builder(draw, max_elems=30, allow_int=True)
     b.allow_const_flag = False
     b.ufunc_options = True
